@@ -15,3 +15,10 @@ for v in c06.STD:
     out["profiles"][v] = prof
 json.dump(out, open('/verif/reference/dvbs2_tables.json', 'w'))
 print({v: out["profiles"][v] for v in out["profiles"]})
+from ldpcv.rules import c07
+from ldpcv.symx import SymEval
+evs = SymEval(F, mode="int", inline_statics=True)
+out2 = {"kind": "tree reference: CCSDS phi_k (Tables 7-3/7-4) and C2 circulant offsets (Table 7-1) of the pinned commit",
+        "phi": c07.arr(evs.eval(F.body("codes::ccsds::PHI_K").value, {})),
+        "c2": c07.arr(evs.eval(F.body("codes::ccsds::C2_CIRCULANTS").value, {}))}
+json.dump(out2, open('/verif/reference/ccsds_tables.json', 'w'))
